@@ -41,6 +41,8 @@ reg(Spec("C14", "c14_apbp.cpp", needs=("lib",),
 
 reg(Spec("C01", "c01_diff.cpp", needs=("shim", "ref", "optable"),
          cases={"quick": 60000, "thorough": 1500000},
+         fuzz={"define": "-DC01_LIBFUZZER", "runs": {"quick": 40000, "thorough": 6000000}, "workers": {"quick": 4, "thorough": 16}, "max_len": 2048},
+         technique="differential property-based testing against a frozen reference (rapidcheck) + coverage-guided differential fuzzing (libFuzzer) + the project's own generator as a stream",
          rule="(a) differential: first word stratified over the decode-table entries (uniform entry, then uniform word of that "
               "entry; 3/16 plain uniform words), second word, full machine state expanded deterministically from a "
               "rapidcheck-generated 64-bit value (every RegisterState field incl. shadow banks within its hardware width, "
